@@ -298,4 +298,101 @@ theorem nnz_mono (W W' : Sim) (θ θ' : Rat) (N : Nat) (hθ : θ ≤ θ')
     have := hW _ _ hi hj
     grind
 
+/-! ### counting a Boolean matrix by rows; evenness for symmetric zero-diagonal matrices -/
+
+def rowCount (f : Nat → Nat → Bool) (N i : Nat) : Nat := (List.range N).countP (f i)
+
+def total (f : Nat → Nat → Bool) (N : Nat) : Nat := ((List.range N).map (rowCount f N)).sum
+
+theorem sum_map_add (l : List Nat) (a b : Nat → Nat) :
+    (l.map fun i => a i + b i).sum = (l.map a).sum + (l.map b).sum := by
+  induction l with
+  | nil => simp
+  | cons x t ih => simp only [List.map_cons, List.sum_cons, ih]; omega
+
+theorem sum_map_ite (l : List Nat) (p : Nat → Bool) :
+    (l.map fun i => if p i then 1 else 0).sum = l.countP p := by
+  induction l with
+  | nil => simp
+  | cons x t ih =>
+    simp only [List.map_cons, List.sum_cons, ih, List.countP_cons]
+    cases p x <;> simp <;> omega
+
+theorem rowCount_succ (f : Nat → Nat → Bool) (N i : Nat) :
+    rowCount f (N + 1) i = rowCount f N i + (if f i N then 1 else 0) := by
+  simp [rowCount, List.range_succ, List.countP_append]
+
+/-- flattened row-major count = row-by-row count -/
+theorem countP_flat_rows (f : Nat → Nat → Bool) (N a : Nat) :
+    (List.range (a * N)).countP (fun p => f (p / N) (p % N))
+      = ((List.range a).map (rowCount f N)).sum := by
+  induction a with
+  | zero => simp
+  | succ a ih =>
+    rw [Nat.add_mul, Nat.one_mul, List.range_add, List.countP_append, ih, List.countP_map,
+      List.range_succ, List.map_append, List.sum_append]
+    have : (List.range N).countP ((fun p => f (p / N) (p % N)) ∘ fun x => a * N + x)
+        = rowCount f N a := by
+      apply List.countP_congr
+      intro j hj
+      have hj' : j < N := by simpa using hj
+      simp only [Function.comp, flat_div N a j hj', flat_mod N a j hj']
+    rw [this]; simp
+
+theorem countP_flat_total (f : Nat → Nat → Bool) (N : Nat) :
+    (List.range (N * N)).countP (fun p => f (p / N) (p % N)) = total f N :=
+  countP_flat_rows f N N
+
+/-- a symmetric Boolean matrix with zero diagonal has an even number of ones -/
+theorem total_even (f : Nat → Nat → Bool) (N : Nat)
+    (hsym : ∀ i j, i < N → j < N → f i j = f j i) (hdiag : ∀ i, i < N → f i i = false) :
+    ∃ m, total f N = 2 * m := by
+  induction N with
+  | zero => exact ⟨0, by simp [total]⟩
+  | succ N ih =>
+    obtain ⟨m, hm⟩ := ih (fun i j hi hj => hsym i j (by omega) (by omega))
+      (fun i hi => hdiag i (by omega))
+    refine ⟨m + (List.range N).countP (fun i => f i N), ?_⟩
+    have h1 : total f (N + 1)
+        = ((List.range N).map (fun i => rowCount f N i + (if f i N then 1 else 0))).sum
+          + (rowCount f N N + (if f N N then 1 else 0)) := by
+      have hfun : rowCount f (N + 1)
+          = fun i => rowCount f N i + (if f i N then 1 else 0) := funext (rowCount_succ f N)
+      simp only [total, List.range_succ, List.map_append, List.sum_append, List.map_cons,
+        List.map_nil, List.sum_cons, List.sum_nil, hfun]
+      omega
+    have h2 : rowCount f N N = (List.range N).countP (fun i => f i N) := by
+      apply List.countP_congr
+      intro j hj
+      have hj' : j < N := by simpa using hj
+      rw [hsym N j (by omega) (by omega)]
+    rw [h1, sum_map_add, sum_map_ite, h2, hdiag N (by omega)]
+    have : ((List.range N).map (rowCount f N)).sum = total f N := rfl
+    rw [this, hm]
+    simp; omega
+
+/-- the adjacency of a symmetric weighted similarity has an even number of ones -/
+theorem nnz_even_of_symmetric (W : Sim) (θ : Rat) (N : Nat)
+    (hsym : ∀ i j, i < N → j < N → W i j = W j i) :
+    ∃ m, nnz (thresholdAdjacency W θ N) = 2 * m := by
+  let f : Nat → Nat → Bool := fun i j => decide (i ≠ j ∧ θ < W i j)
+  have h : nnz (thresholdAdjacency W θ N) = total f N := by
+    rw [← countP_flat_total]
+    simp only [nnz, thresholdAdjacency_eq, List.count_eq_countP, List.countP_map]
+    apply List.countP_congr
+    intro p hp
+    have hp' : p < N * N := by simpa using hp
+    have := stride_diag' N p hp'
+    by_cases h0 : p % (N + 1) = 0
+    · simp [entry, h0, f, this.1 h0]
+    · have h2 : ¬ p / N = p % N := fun e => h0 (this.2 e)
+      simp [entry, h0, f, h2]
+  rw [h]
+  apply total_even
+  · intro i j hi hj
+    simp only [f, hsym i j hi hj]
+    have : (i ≠ j) = (j ≠ i) := propext ⟨Ne.symm, Ne.symm⟩
+    simp only [this]
+  · intro i _; simp [f]
+
 end Pyunicorn.Similarity
